@@ -49,7 +49,7 @@ Proof.
     + unfold access_addr. destruct (al _ _); [reflexivity|]. sdb_simp. apply push_calls.
     + sdb_simp. rewrite push_calls. unfold access_addr. destruct (al _ _); [reflexivity|]. sdb_simp. apply push_calls.
   - unfold touch. sdb_simp. apply cached_calls.
-  - unfold read_state. destruct (lookup s a); [|reflexivity]. rewrite set_obj_calls. apply cached_calls.
+  - unfold read_obs, read_state. sdb_simp. destruct (lookup s a); [|reflexivity]. rewrite set_obj_calls. apply cached_calls.
 Qed.
 
 Lemma rrun_calls_simple mx p r :
@@ -202,7 +202,7 @@ Proof.
   - apply sim_access_addr; exact HR.
   - apply (sim_access_slot mx s r a k HR).
   - apply sim_touch; exact HR.
-  - apply sim_read_state; exact HR.
+  - apply sim_read_obs; exact HR.
 Qed.
 
 Lemma wf_frame_cons mx p t rv r :
@@ -341,6 +341,27 @@ Inductive reach (mx : Z) (t0 : store) : sdb -> rstate -> Prop :=
 
 Lemma reach_Inv mx t0 s r : reach mx t0 s r -> Inv mx s r.
 Proof. induction 1; [apply Inv_init | apply sim_run; assumption]. Qed.
+
+Lemma op_ok_txs s s' : op_ok s s' -> WFJ s -> txs s' = txs s.
+Proof.
+  intros H HW. destruct (H HW) as (_&(_&T&_)&_). rewrite T. unfold unwind. symmetry. apply unwind_k_txs.
+Qed.
+
+Lemma reach_txs mx t0 s r : reach mx t0 s r -> txs s = t0.
+Proof.
+  induction 1; [reflexivity|]. rewrite (op_ok_txs s (run p s) (run_ok p s)); [assumption|].
+  apply (reach_Inv _ _ _ _ H).
+Qed.
+
+(** Reads see the reference: at every reachable program point GetState returns the reference's
+    slot value and GetCommittedState the value of the slot when the transaction started. *)
+Theorem reads_see_reference_reach mx t0 s r a k :
+  reach mx t0 s r ->
+  read_vals s a k = match r_accs r a with Some _ => (r_stor r a k, stor t0 a k) | None => (0, 0) end.
+Proof.
+  intros H. destruct (reach_Inv _ _ _ _ H) as (HR&_). rewrite (reads_see_reference s r a k HR).
+  rewrite (reach_txs _ _ _ _ H). reflexivity.
+Qed.
 
 Lemma wf_sends_firstn i : forall sends r, wf_sends sends r = true -> wf_sends (firstn i sends) r = true.
 Proof.
